@@ -1,6 +1,6 @@
 //@ unit shape_narrow
 //@ serves C06 C04
-//@ must_verify Shape::narrow Shape::narrow_cached Shape::narrow_tuple_shapes_cached Shape::narrow_list_shapes_cached Shape::pos Shape::with_pos Shape::type_name NarrowedShape::new_with_pos NarrowedShape::with_pos PositionedItem::new PositionedItem::new_with_pos PositionedItem::with_pos is_list_subset_cached is_tuple_subset_cached compat lemma_compat_lists lemma_compat_tuples lemma_compat_sym lemma_compat_sym_imp VIter::next verif_slice_iter verif_find
+//@ must_verify Shape::narrow Shape::narrow_cached Shape::narrow_tuple_shapes_cached Shape::narrow_list_shapes_cached Shape::pos Shape::with_pos Shape::type_name NarrowedShape::new_with_pos NarrowedShape::with_pos PositionedItem::new PositionedItem::new_with_pos PositionedItem::with_pos is_list_subset_cached is_tuple_subset_cached compat lemma_compat_lists lemma_compat_tuples lemma_compat_sym lemma_compat_sym_imp lemma_np_tuple_no_field_lost VIter::next verif_slice_iter verif_find
 //@ include prelude/head.rs
 use std::rc::Rc;
 use std::collections::BTreeMap;
@@ -150,8 +150,10 @@ fn verif_narrow_module_arm(slf: &Shape, l: &ModuleShape, r: &ModuleShape, symbol
 
 //@ extract src/ast/mod.rs :: impl Shape :: fn narrow_tuple_shapes_cached
 //@   mutant tuple_one_direction_only "} else if is_tuple_subset_cached(left_iter, right_slist, symbol_table, seen) {" => "} else if false {" expect narrow_tuple_shapes_cached
-// the defect fixed by /scratch/patches/shape_narrow.patch: the tuple with FEWER fields was returned
+// the defect fixed in ucg ("tuple narrowing keeps the tuple that has all the fields"): the tuple with FEWER fields was returned
 //@   mutant tuple_result_forgets_fields "if is_tuple_subset_cached(right_iter, left_slist, symbol_table, seen) { self.clone() } else if is_tuple_subset_cached(left_iter, right_slist, symbol_table, seen) { right.clone() }" => "if is_tuple_subset_cached(left_iter, right_slist, symbol_table, seen) { self.clone() } else if is_tuple_subset_cached(right_iter, left_slist, symbol_table, seen) { right.clone() }" expect narrow_tuple_shapes_cached
+// a tuple that has all the fields of the other side (in particular: equal field sets) is refused
+//@   mutant tuple_containing_side_rejected "if is_tuple_subset_cached(right_iter, left_slist, symbol_table, seen) { self.clone() }" => "if is_tuple_subset_cached(right_iter, left_slist, symbol_table, seen) { Shape::TypeErr(right.pos().clone(), \"Incompatible Tuple Shapes\".to_owned()) }" expect narrow_tuple_shapes_cached
 //@   subst "left_slist.val.iter()" => "verif_slice_iter(&left_slist.val)"
 //@   subst "right_slist.val.iter()" => "verif_slice_iter(&right_slist.val)"
 //@   ret r
@@ -331,6 +333,8 @@ fn verif_narrow_module_arm(slf: &Shape, l: &ModuleShape, r: &ModuleShape, symbol
 //@   mutant tuple_field_types_not_compared "if let Shape::TypeErr(_, _) = ls.narrow_cached(rs, symbol_table, seen) { } else { matched = true; continue; }" => "{ matched = true; continue; }" expect is_tuple_subset_cached
 //@   mutant tuple_names_not_compared "if rt.val == lt.val {" => "if true {" expect is_tuple_subset_cached
 //@   mutant tuple_missing_field_ok "let mut matched = false;" => "let mut matched = true;" expect is_tuple_subset_cached
+// only the first field is compared
+//@   mutant tuple_first_field_only "} else { continue; }" => "} else { { r__ = true; break; } }" expect is_tuple_subset_cached
 //@ end
 
 } // verus!
